@@ -93,6 +93,20 @@ def seeded_mutants(prop):
             meta = json.load(open(mp))
         except Exception:
             continue
+        if meta.get("kind") == "refactoring":
+            # behaviour-preserving refactorings written by independent sub-agents: must stay silent for every property whose
+            # anchor modules they touch
+            if not meta.get("confirmed_behaviour_preserving"):
+                continue
+            from ..rules.common import anchor_files
+            try:
+                touched = {l[6:].strip() for l in open(os.path.join(base, d, "patch.diff")) if l.startswith("+++ b/")}
+            except OSError:
+                continue
+            if meta.get("property") == prop or (touched & anchor_files(prop)):
+                out.append(dict(id="refactor-" + d, prop=prop, expect="silent", rule=None, note="independent behaviour-preserving refactoring " + d,
+                                patch=os.path.join(base, d, "patch.diff"), file=None, find=None, replace=None, mentions=None, edits=None))
+            continue
         if meta.get("property") == prop and meta.get("caught_by_own_property_check"):
             rules = (meta.get("checks_that_fire", {}).get(prop, {}) or {}).get("rules") or [None]
             out.append(dict(id="seed-" + d, prop=prop, expect="fire", rule=None, note="independent seeded change " + d,
